@@ -259,6 +259,16 @@ def run_c10(case: dict[str, Any]) -> dict[str, Any]:
                                  "case": case})
                     break
                 v = view(dh)
+                cleaned = None
+                if case.get("clean_between") and ri < len(runs) - 1 and stream:
+                    # the rest of a run of the tool: the three cleaning steps, on the holder that ingested
+                    try:
+                        dh.remove_inconsistent_jobs()
+                        dh.remove_jobs_outside_of_time_window()
+                        dh.update_job_names_by_root_span()
+                        cleaned = view(dh)
+                    except ValueError:
+                        cleaned = None
             finally:
                 dispose(dh)
             want = spec_first_occurrence(before, stream)
@@ -273,6 +283,12 @@ def run_c10(case: dict[str, Any]) -> dict[str, Any]:
             elif v["dup_rows"] or v["n_assoc_rows"] != len(v["assoc"]):
                 viol.append({"key": "ingest/ensures.one_record_per_id", "what": "duplicate rows", "case": case})
             before = want
+            if cleaned is not None:
+                if wf(cleaned):
+                    viol.append({"key": "run_with_cleaning/ensures.WF", "what": f"after the cleaning steps of run {ri}: " + "; ".join(wf(cleaned)), "case": case})
+                    break
+                before = cleaned["nodes"]   # what the next ingestion finds in the store
+                nontrivial.append("cleaned")
             ids = [s.event_id for s in stream]
             if len(set(ids)) < len(ids):
                 nontrivial.append("dup-in-run")
@@ -306,6 +322,16 @@ def domain_c10(tier: str, rng: random.Random) -> Iterable[dict[str, Any]]:
             for b in (1000, 700):
                 yield {"runs": [enc_spans(stream)], "batch": b}
     yield {"runs": [enc_spans(big[:600]), enc_spans(big[300:])], "batch": 1000}
+    # a whole run (ingest + the three cleaning steps) followed by a run that ingests the same spans again
+    cpool = [span("A", 0, None, 0, 4), span("A", 1, "A.s0", 1, 2), span("B", 0, None, 1, 1), span("B", 1, "ghost", 3, 4), span("B", 3, "A.s0", 2, 2),
+             span("C", 0, None, 2, 3, name="W2")]
+    for n in range(1, 4 if tier == "quick" else 5):
+        for seq in itertools.product(range(len(cpool)), repeat=n):
+            if len(set(seq)) < n:
+                continue
+            stream = [cpool[i] for i in seq]
+            for b in (1, 2, 100):
+                yield {"runs": [enc_spans(stream), enc_spans(stream)], "batch": b, "clean_between": True}
     # duplicates across runs: every split point of every stream of length <= 3 (quick) / 4 (thorough)
     m = 3 if tier == "quick" else 4
     for n in range(2, m + 1):
@@ -347,13 +373,14 @@ def run_c11(case: dict[str, Any]) -> dict[str, Any]:
         v0 = view(dh)
         if wf(v0):
             return {"violations": [{"key": "ingest/ensures.WF", "what": "; ".join(wf(v0)), "case": case}]}
-        # --- remove_inconsistent_jobs
-        try:
-            dh.remove_inconsistent_jobs()
-        except Exception as e:  # noqa: BLE001
-            return {"violations": [{"key": f"remove_inconsistent_jobs/no_raise.{type(e).__name__}", "what": str(e)[:300], "case": case}]}
+        # --- remove_inconsistent_jobs (skipped in the cases that exercise the window step alone on a store with dangling parents)
+        if not case.get("skip_inconsistent"):
+            try:
+                dh.remove_inconsistent_jobs()
+            except Exception as e:  # noqa: BLE001
+                return {"violations": [{"key": f"remove_inconsistent_jobs/no_raise.{type(e).__name__}", "what": str(e)[:300], "case": case}]}
         v1 = view(dh)
-        want1 = spec_remove_inconsistent(v0["nodes"])
+        want1 = v0["nodes"] if case.get("skip_inconsistent") else spec_remove_inconsistent(v0["nodes"])
         if v1["nodes"] != want1:
             viol.append({"key": "remove_inconsistent_jobs/ensures.exactly_broken_traces",
                          "what": f"left {sorted(v1['nodes'])} expected {sorted(want1)}", "case": case})
@@ -408,7 +435,10 @@ def run_c11(case: dict[str, Any]) -> dict[str, Any]:
         if v3["assoc"] != v2["assoc"]:
             viol.append({"key": "update_job_names_by_root_span/frame.assoc", "what": "association rows changed", "case": case})
         # --- differential clause: PV sequences of the untouched traces == those had the removed traces never been ingested
-        if want3 is not None and not viol:
+        # (a parent link that crosses traces is outside the property's domain - complete / dangling / misnamed traces - and makes the
+        #  sequencer fail with KeyError on the parent's trace: observed, DESIGN I.3; such stores are used for the view-level clauses only)
+        cross = any(s.parent in v0["nodes"] and v0["nodes"][s.parent].job_id != s.job_id for s in v0["nodes"].values() if s.parent is not None)
+        if want3 is not None and not viol and not cross:
             try:
                 got = pv_sequences(dh)
             except Exception as e:  # noqa: BLE001
@@ -438,6 +468,12 @@ def trace_variants(tid: str, name: str) -> list[list[Span]]:
     out.append([span(tid, 0, None, 2, 3, name=name), span(tid, 1, f"{tid}.missing", 2, 3, name=name)])
     out.append([span(tid, 1, f"{tid}.missing", 0, 5, name=name)])
     out.append([span(tid, 0, None, 0, 0, name=name), span(tid, 1, f"{tid}.s0", 5, 5, name=name)])
+    # a broken trace whose spans carry several workflow names (names are only unified after the removal steps)
+    out.append([span(tid, 0, None, 2, 3, name=name), span(tid, 1, f"{tid}.missing", 2, 3, name="OTHER"), span(tid, 2, f"{tid}.s0", 2, 2, name="OTHER2")])
+    if tid != "A":
+        # a span whose parent belongs to *another* trace (the parent id resolves in the store, not in the trace)
+        for (s0, e0) in [(0, 0), (2, 3), (5, 5)]:
+            out.append([span(tid, 0, None, s0, e0, name=name), span(tid, 1, "A.s0", s0, e0, name=name)])
     return out
 
 
@@ -462,6 +498,8 @@ def domain_c11(tier: str, rng: random.Random) -> Iterable[dict[str, Any]]:
             yield {"spans": enc_spans(order), "batch": 100, "time_buffer": tb}
         rng.shuffle(order)
         yield {"spans": enc_spans(order), "batch": 2, "time_buffer": 1}
+        if any(s.parent is not None and s.parent not in {t.event_id for t in spans} for s in spans):
+            yield {"spans": enc_spans(spans), "batch": 100, "time_buffer": 1, "skip_inconsistent": True}
 
 
 # ============================================================================= C12: streaming
@@ -541,6 +579,17 @@ def domain_c12(tier: str, rng: random.Random) -> Iterable[dict[str, Any]]:
             layouts.append([("A", na, "W2", True), ("B", nb, "W1", False), ("C", 1, "W1", False)])
     if tier == "quick":
         layouts = layouts[::2]
+    # one trace id occurring under two workflow names (span ids differ): the unit of streaming is the (name, trace id) pair
+    shared = []
+    for n1, n2 in [(1, 1), (2, 3), (3, 2)]:
+        sp = chain("A", n1, "W1") + [s._replace(job_id="A", event_id="x" + s.event_id, parent=None if s.parent is None else "x" + s.parent)
+                                     for s in chain("A", n2, "W2", True)] + chain("B", 2, "W2")
+        shared.append(sp)
+    for sp in shared:
+        for b in batches:
+            yield {"spans": enc_spans(sp), "batch": b, "filter": None}
+            for f in ({"W1": ["A"], "W2": ["A"]}, {"W1": ["A"]}, {"W2": ["A"]}, {"W1": ["A"], "W2": ["A", "B"]}, {"W2": ["B"], "W1": ["A"]}):
+                yield {"spans": enc_spans(sp), "batch": b, "filter": f}
     for lay in layouts:
         spans = [s for (tid, n, name, bushy) in lay for s in chain(tid, n, name, bushy)]
         inter = list(spans)
@@ -568,6 +617,17 @@ def run_c09(case: dict[str, Any]) -> dict[str, Any]:
     viol: list[dict[str, Any]] = []
     dh = store_from(stream, b, 0)
     try:
+        if case.get("spans2"):
+            # the selection was already run once on an earlier state of the store; spans that arrive afterwards must count
+            try:
+                dh.find_unique_graphs()
+                _, _, _, dm = _imports()
+                if "temp_root_nodes" in dm.Base.metadata.tables:   # a later run is a new process: it would not have the table object (emulation artefact)
+                    dm.Base.metadata.remove(dm.Base.metadata.tables["temp_root_nodes"])
+                ingest(dh, dec_spans(case["spans2"]))
+            except Exception as e:  # noqa: BLE001
+                return {"violations": [{"key": f"find_unique_graphs/no_raise.{type(e).__name__}", "what": "first selection / late ingestion: " + str(e)[:300],
+                                        "case": case}]}
         v = view(dh)
         try:
             sel = dh.find_unique_graphs()
@@ -657,6 +717,9 @@ def domain_c09(tier: str, rng: random.Random) -> Iterable[dict[str, Any]]:
         mixed = a + bsp + c
         rng.shuffle(mixed)
         yield {"spans": enc_spans(mixed), "batch": 2}
+        if len(a) >= 2:   # the last span of T1 (a leaf) arrives after a first selection has been made
+            for b in (2, 1000):
+                yield {"spans": enc_spans(a[:-1] + bsp + c), "spans2": enc_spans(a[-1:]), "batch": b}
     # repeated identical sub-trees (multiplicity must count) and deeper random trees
     for k in range(60 if tier == "quick" else 400):
         n = rng.randrange(3, 7)
@@ -767,14 +830,20 @@ def domain_c15(tier: str, rng: random.Random) -> Iterable[dict[str, Any]]:
     stores.append(chain("A", 2, "W1") + [span("B", 0, None, 1, 2, name="W1"), span("B", 1, "B.gone", 1, 2, name="W1")] + chain("C", 3, "W1"))
     stores.append(chain("A", 1, "W1"))
     stores.append(chain("A", 3, "W1") + chain("B", 3, "W1") + [span("D", 1, "D.missing", 0, 9, name="W2")])
+    # a broken trace one of whose spans hangs under a span of a *kept* trace (the association row crosses traces)
+    stores.append(chain("A", 2, "W1") + [span("B", 0, None, 1, 2, name="W1"), span("B", 1, "B.gone", 1, 2, name="W1"), span("B", 2, "A.s0", 1, 2, name="W1")])
     flags = [[i, u] for i in (True, False) for u in (True, False)]
     maxlen = 3 if tier == "quick" else 4
     # a store spread over six minutes with a one-minute buffer: the first (ingesting) run trims the traces lying in the
     # buffer zones; later runs must neither trim further nor fail
     spread = [s for k, tid in enumerate("ABCDEF") for s in [span(tid, 0, None, k, k, name="W1"), span(tid, 1, f"{tid}.s0", k, k, name="W1")]]
+    # ... and the same with a trace that starts in the leading buffer zone and ends in the trailing one (no span boundary inside the window)
+    long_ = spread + [span("L", 0, None, 0, 5, name="W1", etype="long"), span("L", 1, "L.s0", 0, 0, name="W1", etype="long-child")]   # a shape of its own
     for n in range(2, maxlen + 1):
         for hist in itertools.product(flags, repeat=n):
             yield {"spans": enc_spans(spread), "batch": 1000, "history": [list(h) for h in hist], "time_buffer": 1}
+            if n <= 3:
+                yield {"spans": enc_spans(long_), "batch": 1000, "history": [list(h) for h in hist], "time_buffer": 1}
     for st in stores:
         for n in range(1, maxlen + 1):
             for hist in itertools.product(flags, repeat=n):
